@@ -140,6 +140,14 @@ def judge(log, leftovers, rc, what, fault, sh, case):
             if not lst[0]["force"]:
                 sh.violation("remove-without-force", "%s: %s removed without --force" % (what, label), case)
                 return False
+        # ... and counted per volume NAME (a removal of one of the two volumes on its own is a removal too)
+        for vol in (image + ".build-cache", image + ".launch-cache"):
+            hits = [c for c in cmds if c["kind"] == "docker volume remove" and vol in c["names"]]
+            if len(hits) != 1 or hits[0]["seq"] < last_use:
+                sh.violation("volume-removed-%d-times:%s" % (len(hits), fault["kind"]) if len(hits) != 1 else "removed-before-last-use",
+                             "%s: the volume %s is named by %d volume-remove commands (%r); the image is last used by command #%d; commands: %s"
+                             % (what, vol, len(hits), [c["seq"] for c in hits], last_use, [e["kind"] + (" [failed]" if e["failed"] else "") for e in log]), case)
+                return False
     import re
     own = re.compile(r"^libcnbtest_[a-z]{12}$")
     # identifiers the runner allocated for a build whose pack build never ran (the fault hit earlier): the runner may still remove
